@@ -82,6 +82,9 @@ pub struct ShortWriter {
     sched: Vec<usize>,
     next: usize,
     budget: Option<usize>,
+    // what happens once the budget is spent: Some(kind) = an error of that kind; None = the sink is full and accepts
+    // zero bytes (as a fixed-size buffer does)
+    kind: Option<io::ErrorKind>,
 }
 
 impl Write for ShortWriter {
@@ -91,7 +94,10 @@ impl Write for ShortWriter {
             self.next += 1;
         }
         let n = match self.budget {
-            Some(0) => return Err(io::Error::new(io::ErrorKind::Other, "injected write failure")),
+            Some(0) => match self.kind {
+                Some(kind) => return Err(io::Error::new(kind, "injected write failure")),
+                None => return Ok(0),
+            },
             Some(b) => {
                 let n = cap.min(b).min(buf.len());
                 self.budget = Some(b - n);
@@ -214,7 +220,8 @@ pub fn run(toks: &[&str], out: &mut String) {
                 toks[4].split(',').map(|t| f64::from_bits(u64::from_str_radix(&t[1..], 16).unwrap())).collect()
             };
             let scs = Scs::new(bits, parse_list(toks[2])).expect("shape");
-            let mut w = ShortWriter { accepted: Vec::new(), sched: parse_list(toks[5]), next: 0, budget: parse_opt(toks[6]) };
+            let kind = if toks[6].ends_with(":zero") { None } else { Some(parse_kind(toks[6])) };
+            let mut w = ShortWriter { accepted: Vec::new(), sched: parse_list(toks[5]), next: 0, budget: parse_opt(toks[6]), kind };
             let res = write::Builder::default()
                 .set_format(if toks[1] == "npy" { Format::Npy } else { Format::Text })
                 .set_precision(toks[3].parse().unwrap())
